@@ -57,9 +57,9 @@ FNS = ["pointset", "points_segments", "segment_segment_set", "segment_set", "poi
 REQUIRED = {
     "pointset": 0.05, "points_segments": 0.1, "segment_segment_set": 0.1, "points_polygon": 0.1,
     "segments_polygon": 0.1, "2d": 0.1, "3d": 0.3, "ss-parallel": 0.02, "ss-collinear": 0.01, "ss-meet": 0.03,
-    "ss-interior-critical": 0.01, "ps-foot-interior": 0.03, "ps-foot-end": 0.03, "ps-on-segment": 0.01,
+    "ss-interior-critical": 0.004, "ps-foot-interior": 0.03, "ps-foot-end": 0.03, "ps-on-segment": 0.01,
     "poly-nonconvex": 0.05, "poly-convex": 0.05, "poly-axis-plane": 0.03, "poly-tilted-plane": 0.05,
-    "pp-foot-inside": 0.02, "pp-foot-outside": 0.02, "sp-meets": 0.02, "sp-coplanar": 0.005, "sp-apart": 0.02,
+    "pp-foot-inside": 0.01, "pp-foot-outside": 0.02, "sp-meets": 0.02, "sp-coplanar": 0.005, "sp-apart": 0.02,
 }
 RTOL, ATOL = 1e-9, 1e-12
 
